@@ -218,13 +218,37 @@ def _setting_classes(r, c):
     r.cls('cutoff-%s' % c['container'])
 
 
+_CUT = {}
+
+
 def _filter(values, dt, c, default_order=False):
+    """The cut-off container is built once per pool case and the SAME object is handed to every butter_pass call of the case
+    (the way a caller filters several records with one setting); it is snapshot-checked after each call (see _cut_unchanged)."""
     s = eqsig.Signal(values, dt)
     kw = {'remove_gibbs': c['gibbs']}
     if not default_order:
         kw['filter_order'] = c['order']
-    s.butter_pass(make_cut(c['cut'], c['container']), **kw)
+    key = (repr(c['cut']), c['container'])
+    if _CUT.get('key') != key:
+        _CUT.clear()
+        _CUT.update(key=key, obj=make_cut(c['cut'], c['container']))
+        _CUT['snap'] = _snap_cut(_CUT['obj'])
+    s.butter_pass(_CUT['obj'], **kw)
     return s
+
+
+def _snap_cut(obj):
+    return (type(obj).__name__, obj.dtype.str, obj.tobytes()) if isinstance(obj, np.ndarray) else (type(obj).__name__, repr(obj))
+
+
+def _cut_unchanged(r, sub):
+    """the caller's cut-off container must not be modified by butter_pass (reported once, then rebuilt)"""
+    if 'obj' not in _CUT:
+        return
+    r.n_cmp += 1
+    if _snap_cut(_CUT['obj']) != _CUT['snap']:
+        r.fail('filter.cutoff-unchanged', sub, "butter_pass modified the caller's cut-off container: now %r" % (_CUT['obj'],))
+        _CUT.clear()
 
 
 def _shape_ok(r, sub, s, n, dt):
@@ -239,6 +263,7 @@ def _shape_ok(r, sub, s, n, dt):
 
 def run_gain(c):
     r = Res()
+    _CUT.clear()
     cut, order = c['cut'], c['order']
     base = {'cut': cut, 'container': c['container'], 'order': order, 'gibbs': c['gibbs'], 'N': N_LONG}
     _setting_classes(r, c)
@@ -270,6 +295,7 @@ def run_gain(c):
                         return r      # this way of giving the cut-offs is not accepted at all: one report per setting
                     continue
                 first = False
+                _cut_unchanged(r, base)
                 _shape_ok(r, sub, s, N_LONG, DT)
                 try:
                     got = np.asarray(s.values)[mid]
@@ -282,6 +308,7 @@ def run_gain(c):
 
 def run_lin(c):
     r = Res()
+    _CUT.clear()
     cut, order = c['cut'], c['order']
     n = N_SHORT
     base = {'cut': cut, 'container': c['container'], 'order': order, 'gibbs': c['gibbs'], 'N': n}
@@ -299,6 +326,7 @@ def run_lin(c):
                 return r
             H.append(None)
             continue
+        _cut_unchanged(r, base)
         _shape_ok(r, sub, s, n, DT)
         H.append(s.values)
         try:
